@@ -64,7 +64,7 @@ def verify(name):
     # some demos still name the worktree they were written in (/tmp/wt-<property>): point that name at this scratch tree
     os.environ["REPROC_SRC"] = wt
     made_alias = []
-    for alias in ["/tmp/%s-%s" % (pre, m["property"]) for pre in ("wt", "w3", "w4", "w5", "w6")]:
+    for alias in ["/tmp/%s-%s" % (pre, m["property"]) for pre in ("wt", "w3", "w4", "w5", "w6", "w7", "w8")]:
         if not os.path.exists(alias):
             os.symlink(wt, alias)
             made_alias.append(alias)
